@@ -17,6 +17,7 @@ import pickle
 import xgi
 
 from . import hg
+from .dhg import CallTimeout, guarded
 from .core import dec_id, enc_attrs_req, enc_id, idkey
 
 # ----------------------------------------------------------------------------- generation
@@ -39,6 +40,15 @@ EDGE_UNIVERSES = [
 ATTR_KEYS = hg.ATTR_KEYS
 ATTR_VALS = hg.ATTR_VALS
 MAX_ORDERS = [None, None, None, 0, 1, 1, 2, 2, 3, 4]
+# documented / declared defaults of keyword parameters: a generated call leaves some of them out (op["omit"]); the op
+# then carries the default as its value, which is what the model is asked to perform (see dhg.DEFAULTS)
+DEFAULTS = {
+    "add_simplices_from": {"max_order": None}, "add_edges_from": {"max_order": None},
+    "add_weighted_simplices_from": {"max_order": None, "weight": "weight"},
+    "add_weighted_edges_from": {"max_order": None, "weight": "weight"},
+    "cleanup": {"isolates": False, "connected": True, "relabel": True, "in_place": True},
+    "clear": {"remove_net_attr": True},
+}
 
 
 class Gen:
@@ -132,6 +142,21 @@ class Gen:
         return [enc_id(r.choice(pool)) if r.random() > self.malformed else None for _ in range(r.randint(0, 4))]
 
     def op(self):
+        op = self._op()
+        d = DEFAULTS.get(op["op"])
+        if d and self.rng.random() < 0.35:
+            omit = [k for k in d if (k == "in_place" or k in op) and self.rng.random() < 0.6]
+            if "weight" in omit:           # the weight name is also the key of the items' attribute
+                if any(it["attr"][0][0] != "weight" for it in op["items"]) or any(k == "weight" for k, _ in op["attr"]):
+                    omit.remove("weight")
+            for k in omit:
+                if k != "in_place":
+                    op[k] = d[k]
+            if omit:
+                op["omit"] = omit
+        return op
+
+    def _op(self):
         w = dict(self.OPS)
         w.update(self.weights)
         names = list(w)
@@ -217,6 +242,11 @@ def _clone_snap(T):
     return c
 
 
+def _kw(op, **kw):
+    """the keyword arguments of the call: those named in op["omit"] are left to the library's defaults"""
+    return {k: v for k, v in kw.items() if k not in op.get("omit", ())}
+
+
 def _plain(S, op):
     """the public call itself"""
     name = op["op"]
@@ -229,10 +259,10 @@ def _plain(S, op):
             op["idx"] = "$auto"                                # idx=None *is* the automatic id
         return getattr(S, name)(ms, **kw, **A(op["attr"]))
     if name in ("add_simplices_from", "add_edges_from"):
-        return getattr(S, name)(hg._ebunch(op["fmt"], op["items"], op.get("share_sets", False)), max_order=op["max_order"], **A(op["attr"]))
+        return getattr(S, name)(hg._ebunch(op["fmt"], op["items"], op.get("share_sets", False)), **_kw(op, max_order=op["max_order"]), **A(op["attr"]))
     if name in ("add_weighted_simplices_from", "add_weighted_edges_from"):
         eb = [[dec_id(m) for m in it["members"]] + [it["attr"][0][1]] for it in op["items"]]
-        return getattr(S, name)(eb, max_order=op["max_order"], weight=op["weight"], **A(op["attr"]))
+        return getattr(S, name)(eb, **_kw(op, max_order=op["max_order"], weight=op["weight"]), **A(op["attr"]))
     if name in ("remove_simplex_id", "remove_edge"):
         return getattr(S, name)(dec_id(op["e"]))
     if name in ("remove_simplex_ids_from", "remove_edges_from"):
@@ -244,7 +274,7 @@ def _plain(S, op):
     if name == "close":
         return S.close()
     if name == "cleanup":
-        return S.cleanup(isolates=op["isolates"], connected=op["connected"], relabel=op["relabel"], in_place=True)
+        return S.cleanup(**_kw(op, isolates=op["isolates"], connected=op["connected"], relabel=op["relabel"], in_place=True))
     if name == "has_simplex":
         _RES[id(S)] = bool(S.has_simplex([dec_id(m) for m in op["members"]]))
         return
@@ -253,7 +283,7 @@ def _plain(S, op):
     if name == "add_nodes_from":
         return S.add_nodes_from(hg._node_items(op["items"]), **A(op["attr"]))
     if name == "clear":
-        return S.clear(remove_net_attr=op["remove_net_attr"])
+        return S.clear(**_kw(op, remove_net_attr=op["remove_net_attr"]))
     if name == "clear_edges":
         return S.clear_edges()
     if name == "freeze":
@@ -304,7 +334,15 @@ def call(S, op):
 
 
 def apply_impl(S, op):
-    return hg.apply_impl(S, op, callf=call)
+    """the call under the watchdog of dhg.guarded: a call that does not return ends with outcome "err:hang" """
+    hung = S.__dict__.get("_verif_hung")
+    if hung is not None:                 # the complex of a call that never returned is garbage: the history ends there
+        return "err:hang", hung
+    out, exc = hg.apply_impl(S, op, callf=guarded(call))
+    if isinstance(exc, CallTimeout):
+        out = "err:hang"
+        S.__dict__["_verif_hung"] = exc
+    return out, exc
 
 
 def member_sets(S):
@@ -312,11 +350,35 @@ def member_sets(S):
 
 
 def snapshot(S, out="ok"):
-    """hg.snapshot plus: `res` (answer of a has_simplex query op) and `has` (the subsets of the current node set,
-    as sorted id lists, for which `has_simplex` answers True — evaluated through the public method)"""
-    s = hg.snapshot(S, out)
+    """hg.snapshot plus: `res` (answer of a has_simplex query op), `has` (the subsets of the current node set,
+    as sorted id lists, for which `has_simplex` answers True — evaluated through the public method) and `memtype`
+    (ids whose members are not handed out as a frozenset)"""
+    if S.__dict__.get("_verif_hung") is not None:
+        # after a call that never returned the object may hold millions of entries: observe an empty complex instead
+        # (the predicate reports `call-does-not-return` from the outcome alone)
+        s = hg.snapshot(xgi.SimplicialComplex(), out)
+        s.update(res=_RES.pop(id(S), None), clone=_CLONE.pop(id(S), None), memtype=[], has=None)
+        return s
+    try:
+        s = hg.snapshot(S, out)
+    except ValueError as ex:
+        # an object that is no ID of the model's domain is stored as a node / simplex (what a wrong edit of the library
+        # may do with a one-shot iterator): the history goes on with the snapshot of an empty complex marked "garbage",
+        # which the predicate reports (harness/props/c03.py `id-outside-domain`) and the model cannot match
+        s = hg.snapshot(xgi.SimplicialComplex(), out)
+        s.update(garbage=str(ex)[:200], res=_RES.pop(id(S), None), clone=_CLONE.pop(id(S), None), memtype=[], has=None)
+        return s
     s["res"] = _RES.pop(id(S), None)
     s["clone"] = _CLONE.pop(id(S), None)
+    # ids whose member container, as handed out by S.edges.members(e), is not a frozenset (the documented, hashable form)
+    nf = []
+    for e in S.edges:
+        try:
+            if not isinstance(S.edges.members(e), frozenset):
+                nf.append(_enc_or_none(e))
+        except Exception:  # noqa  (unreadable members are reported by "mem")
+            pass
+    s["memtype"] = nf
     nodes = list(S.nodes)
     has = []
     if len(nodes) <= 8:
@@ -334,7 +396,7 @@ def snapshot(S, out="ok"):
 
 
 def to_request(op):
-    return {k: v for k, v in op.items() if k not in ("weight", "share_sets")}
+    return {k: v for k, v in op.items() if k not in ("weight", "share_sets", "omit")}
 
 
 def nontrivial(snap, kinds):
@@ -342,4 +404,5 @@ def nontrivial(snap, kinds):
 
 
 NAME = "SimplicialComplex"
+CORPUS = "SC"    # shared corpus directory corpus/SC/*.json: run first by every check that drives this state machine
 factory = xgi.SimplicialComplex
